@@ -128,9 +128,9 @@ func TestVerifBounded(t *testing.T) {
 	// classic place where error recovery fails to make progress)
 	wzBody := []string{"类型", "常量", "全局", "函数", "结构", "接口", "字典", "设定", "如果", "或者", "否则", "找辙", "有辙", "没辙", "循环", "迭代", "继续", "跳出", "押后", "返回", "区块", "完毕", "引入", "点", "整型", "x", "1", "=", ":=", ":", "，", "（", "）", "·"}
 	waBody := []string{"type", "const", "global", "func", "struct", "interface", "map", "var", "if", "else", "switch", "case", "default", "for", "range", "continue", "break", "defer", "return", "import", "T", "int", "x", "1", "=", ":=", ":", ",", "(", ")", "{", "}", "."}
-	nBody := 2
+	nBody := 3
 	if os.Getenv("VERIF_TIER") == "thorough" {
-		nBody = 3
+		nBody = 4
 	}
 	cases += zzSeqs(wzBody, nBody, func(src string) {
 		full := "函数·主控:\n\t" + src + "\n完毕\n"
@@ -228,5 +228,5 @@ func TestVerifBounded(t *testing.T) {
 			}
 		}
 	}
-	fmt.Printf("BOUNDED {\"cases\": %d, \"bound\": \"token sequences of length <= %d (.wa: 19 tokens; .wz: 13 tokens, length <= %d), <= %d (WAT, 19 tokens), <= %d (native assembly, 14 tokens, 2 CPUs); plus wider alphabets (.wa 53 tokens, WAT 45 tokens) one token shorter; type checking (LoadProgramFile) for sequences of <= %d tokens; statement-position sweeps inside a function body (34 .wz / 33 .wa tokens incl. every declaration keyword, length <= 2, thorough 3); every prefix of a WAT module with escapes; long padded inputs without extension; number literals of a radix prefix plus <= %d characters in 3 contexts; index/slice brackets of <= %d tokens; constant declarations A op B and op A over 20 boundary literals x 14 binary / 7 unary operators (7 declared types for some; divisions and shifts also inside a function body), one declaration per package through the parser and the type checker; no panic, each call returns within 10 s\"}\n", cases, nWa, nWa-1, nWat, nAsm, nCheck, nLit, nIdx)
+	fmt.Printf("BOUNDED {\"cases\": %d, \"bound\": \"token sequences of length <= %d (.wa: 19 tokens; .wz: 13 tokens, length <= %d), <= %d (WAT, 19 tokens), <= %d (native assembly, 14 tokens, 2 CPUs); plus wider alphabets (.wa 53 tokens, WAT 45 tokens) one token shorter; type checking (LoadProgramFile) for sequences of <= %d tokens; statement-position sweeps inside a function body (34 .wz / 33 .wa tokens incl. every declaration keyword, length <= 3, thorough 4); every prefix of a WAT module with escapes; long padded inputs without extension; number literals of a radix prefix plus <= %d characters in 3 contexts; index/slice brackets of <= %d tokens; constant declarations A op B and op A over 20 boundary literals x 14 binary / 7 unary operators (7 declared types for some; divisions and shifts also inside a function body), one declaration per package through the parser and the type checker; no panic, each call returns within 10 s\"}\n", cases, nWa, nWa-1, nWat, nAsm, nCheck, nLit, nIdx)
 }
